@@ -7,11 +7,14 @@ open DSymVerif DSymVerif.Proto
 namespace DrvC06
 open DSymVerif.SpecC06
 
-/-- `count (size counter op(1,0) … op(size,dim))*`, the dimension comes from the input -/
-def parseEmitted (dim : Nat) : P (List Emitted) := do
+/-- `count (size dim counter op(1,0) … op(size,dim))*` — every set carries the size and
+    dimension the library reports for it; the op table has `size * (dim + 1)` entries of
+    the set's OWN dimension -/
+def parseEmitted : P (List Emitted) := do
   let cnt ← P.nat
   let l ← P.rep cnt (do
     let size ← P.nat
+    let dim ← P.nat
     let counter ← P.nat
     let op ← P.rep (size * (dim + 1)) P.nat
     pure ({ size := size, dim := dim, op := op.toArray, counter := counter } : Emitted))
@@ -20,7 +23,8 @@ def parseEmitted (dim : Nat) : P (List Emitted) := do
 
 def encModel (l : List (DS.DSetData × Nat)) : String :=
   joinToks (toString l.length ::
-    l.flatMap fun (ds, c) => toString ds.size :: toString c :: ds.op.toList.map toString)
+    l.flatMap fun (ds, c) =>
+      toString ds.size :: toString ds.dim :: toString c :: ds.op.toList.map toString)
 
 def handler : Handler := fun op inp out =>
   let bad := ("-", fail "driver-cannot-parse-input")
@@ -31,7 +35,7 @@ def handler : Handler := fun op inp out =>
       let model := match DSG.dsetsNumbered dim max with
         | some l => encModel l
         | none => "PANIC"
-      match run (parseEmitted dim) out with
+      match run parseEmitted out with
       | some es => (model, check (genClauses dim max es))
       | none => (model, fail "no-sequence-returned-or-panic")
     | none => bad
@@ -40,7 +44,7 @@ def handler : Handler := fun op inp out =>
                   pure (dim, max, n, part, nparts)) inp with
     | some (dim, _max, n, part, nparts) =>
       if nparts == 0 || part ≥ nparts then bad else
-      match run (parseEmitted dim) out with
+      match run parseEmitted out with
       | some es => ("-", check (hitClauses dim n part nparts es))
       | none => ("-", fail "no-sequence-returned-or-panic")
     | none => bad
